@@ -64,9 +64,9 @@ Proof. exact escape_dollar. Qed.
 Theorem C17_group_grammar_same_in_both_dialects_partial :
   forall fl fl' a input,
     ok_a false a = true -> f_xpath fl = false -> f_xpath fl' = true ->
-    f_case fl = f_case fl' -> f_multi fl = f_multi fl' ->
+    f_case fl = f_case fl' -> f_multi fl = f_multi fl' -> f_single fl = f_single fl' ->
     f_literal fl = false -> f_literal fl' = false -> f_ws fl = false -> f_ws fl' = false ->
-    (N.of_nat (length input) < umax)%N ->
+    (N.of_nat (length input) < umax)%N -> valid_in input ->
     exists prog prog', compile true fl (show_a a) = Ok prog /\ compile true fl' (show_a a) = Ok prog'
       /\ match matches prog input 0 st0, matches prog' input 0 st0 with
          | MTrue _, MTrue _ | MFalse _, MFalse _ => True
